@@ -59,9 +59,16 @@ def _cases(R, G, t, n):
             segs[R.randrange(k)] = G.escape(R.choice(sorted(t.names)))
         p = '/'.join(segs) + ('/' if R.random() < 0.2 else '')
         fl = G.GLOBSTAR if R.random() < 0.85 else 0
+        tmpl = None
+        if R.random() < 0.2 and t.names:
+            # `***` (follows links) BEFORE a `**` (must not), separated by a literal that exists in the tree
+            nm = sorted(t.names)
+            tmpl = R.choice(['***/{a}/**', '***/{a}/**/{b}', '{a}/***/{b}/**', '***/{a}/**/*', '**/{a}/***', '***/{a}/**/{b}/**'])
+            p = tmpl.format(a=G.escape(R.choice(nm)), b=G.escape(R.choice(nm)))
+            fl |= G.GLOBSTAR | G.GLOBSTARLONG
         for nm, pr in (('GLOBSTARLONG', 0.4), ('FOLLOW', 0.4), ('MATCHBASE', 0.25), ('DOTGLOB', 0.3), ('EXTGLOB', 0.5),
                        ('MARK', 0.1), ('NODIR', 0.1), ('SCANDOTDIR', 0.1), ('IGNORECASE', 0.1)):
-            if R.random() < pr:
+            if R.random() < pr and not (tmpl and nm in ('MATCHBASE', 'IGNORECASE', 'NODIR', 'FOLLOW')):
                 fl |= getattr(G, nm)
         follows = bool(fl & G.FOLLOW) or (bool(fl & G.GLOBSTARLONG) and '***' in p)
         if t.cyclic and follows:
@@ -115,6 +122,26 @@ def run(ck: Check) -> int:
             k6['disagree'].append({'stream': 'K6', **c.to_json(G, t), 'path/code/model': d})
         segs = [s for s in c.pats.split('/') if s]
         follows = bool(fl & G.FOLLOW and not fl & G.GLOBSTARLONG)
+        # clause (d'), added after seeded change C06b (a `***` switched the capture of every later `**` off):
+        # literal segments, exactly one `**`, any number of `***` (GLOBSTARLONG), no adjacent stars — then REALPATH
+        # matching must not accept an existing path that glob (same flags) does not return and that crosses a
+        # symlinked directory before its last piece
+        long = bool(fl & G.GLOBSTARLONG)
+        lits = [s for s in segs if s not in ('**', '***')]
+        if (not follows and fl & G.GLOBSTAR and not fl & (G.MATCHBASE | G.IGNORECASE | G.NODIR) and segs.count('**') == 1
+                and (long or '***' not in segs) and not c.pats.endswith('/') and not c.pats.startswith('/')
+                and all(s not in ('.', '..') and not G.is_magic(s, flags=fl) for s in lits)
+                and not any(segs[i] in ('**', '***') and segs[i + 1] in ('**', '***') for i in range(len(segs) - 1))):
+            got = {r.rstrip('/') for r in res}
+            for x, b in zip(cands, bits):
+                if b != '1' or x.startswith(('/', './')) or x.rstrip('/') in got:
+                    continue
+                comps = [k for k in x.rstrip('/').split('/') if k]
+                stats['realpath_vs_glob_link_checks'] = stats.get('realpath_vs_glob_link_checks', 0) + 1
+                if any(os.path.islink(os.path.join(t.root, *comps[:j])) and os.path.isdir(os.path.join(t.root, *comps[:j]))
+                       for j in range(1, len(comps))):
+                    found.append(Failing(f'globmatch(REALPATH) accepted {x!r}, which crosses a symlinked directory and which glob does not return',
+                                         {**c.to_json(G, t), 'path': x}, False, True, 'wcmatch/_wcmatch.py:100-133; wcmatch/_wcparse.py:_handle_star (capture)'))
         if follows or not fl & G.GLOBSTAR or fl & G.MATCHBASE or segs.count('**') != 1 or segs[-1] != '**' or '***' in segs:
             return
         pre = segs[:-1]
